@@ -112,9 +112,22 @@ pub fn composite_event(rng: &mut StdRng) -> Value {
     let mag = 10f64.powf(gen::unif(rng, -1.0, 1.0));
     let mut ds: Vec<f64> = s.iter().map(|_| gen::normal(rng) * mag).collect();
     let dz: Vec<f64> = z.iter().map(|_| gen::normal(rng) * mag).collect();
-    // zero-cone slack never moves
+    let mut dz = dz;
+    // zero-cone slack never moves; now and then a direction points from the iterate straight through the apex of a
+    // second-order cone (ds = -k s, k > 1: the quadratic has a double root at 1/k and its discriminant is pure rounding noise)
     let mut off = 0;
-    for c in &cones { if let ConeSpec::Zero(n) = c { for i in off..off + n { ds[i] = 0.0; } } off += c.numel(); }
+    for c in &cones {
+        if let ConeSpec::Zero(n) = c { for i in off..off + n { ds[i] = 0.0; } }
+        if let ConeSpec::Soc(n) = c {
+            if rng.gen::<f64>() < 0.25 {
+                let k = gen::unif(rng, 1.05, 6.0);
+                if rng.gen::<bool>() { for i in off..off + n { ds[i] = -k * s[i]; } } else { for i in off..off + n { dz[i] = -k * z[i]; } }
+                if rng.gen::<f64>() < 0.3 { for i in off + 1..off + n { s[i] = 0.0; ds[i] = 0.0; } }      // on the axis
+            }
+        }
+        off += c.numel();
+    }
+    let dz = dz;
     let st = settings();
     let amax = [1.0, 0.7][rng.gen_range(0..2)];
     let has_psd = cones.iter().any(|c| matches!(c, ConeSpec::Psd(_)));
